@@ -19,7 +19,6 @@ import (
 	"verifh/vh"
 )
 
-const sigEmptyFieldKey = "empty-field-key-after-tab-or-nul"
 const sigTokenMismatch = "field-tokenization-mismatch-escaped-backslash"
 
 type j12 struct {
@@ -118,9 +117,8 @@ func run12(w *vh.W, c *j12) {
 	term := fmt.Sprintf("{| c_body := %s; c_prec := %s; c_dflt := %s; c_points := %s; c_rejected := %s; c_http_err := %s; c_http_rejected := %s; c_http_npoints := %s |}",
 		segs(c.Body), vh.N(precCode(c.Prec)), vh.Z(c.Dflt), vh.List(pv), vh.List(rj), vh.Bool(c.HErr), vh.List(hr), vh.N(uint64(c.HN)))
 	sig := ""
-	if bytes.Contains(c.Body, []byte("\t=")) || bytes.Contains(c.Body, []byte("\x00=")) {
-		sig = sigEmptyFieldKey
-	}
+	// (bodies with TAB/NUL right before '=' are still generated - the repaired empty-field-key
+	// defect - but carry no signature any more: a regression is a VIOLATION again)
 	if bytes.IndexByte(c.Body, '\\') >= 0 && bytes.IndexByte(c.Body, '"') >= 0 {
 		sig = sigTokenMismatch // scanFields and walkFields/FieldIterator can tokenize differently only with a backslash and a quote
 	}
@@ -465,9 +463,9 @@ func corpus12() []j12 {
 	cs := []j12{
 		mk("cpu,host=a,region=b value=1i,f=2.5,s=\"x y\",b=t 1700000000000000000", "ns"),
 		mk("m f=1\nbad\n# comment\n\n  \nm,b=1,a=2 f=1 5\nm,a=1,a=2 f=1\nm f=1 x", "ns"),
-		mk("m \t=1", "ns"),             // known finding: empty field key
-		mk("m \x00=1,b=2 7", "ns"),     // known finding shape, second field named
-		mk("m a\\\\=\"x=t,b=\"", "ns"), // known finding: accepted, FieldIterator.StringValue()/Fields() panic
+		mk("m \t=1", "ns"),             // repaired defect (was: accepted with an empty field key); must be rejected
+		mk("m \x00=1,b=2 7", "ns"),     // same shape, second field named; must be rejected
+		mk("m a\\\\=\"x=t,b=\"", "ns"), // accepted (open finding: tokenization mismatch); StringValue() used to panic on the lone quote
 		mk("m a\\\\=\"x=-i,b=1\" 5", "ns"),
 		mk("m f=\"a\nb\" 1\nm2 f=1", "ns"),
 		mk("m f=1\\\nx\nm f=2", "ns"), // backslash swallows the newline in scanLine
